@@ -473,9 +473,14 @@ def evaluate_payload_template(input, context, template):
 
             # Keep the first occurrence of each value, in order. (A set would make
             # the order depend on the hash seed and cannot hold arrays/objects.)
+            # Values are compared by their JSON text, as Python's == treats
+            # true and 1 (and false and 0) as equal.
             unique = []
+            seen = set()
             for item in input_array:
-                if item not in unique:
+                key = json.dumps(item, sort_keys=True)
+                if key not in seen:
+                    seen.add(key)
                     unique.append(item)
             return unique
 
